@@ -18,5 +18,16 @@ Falcon1024 == [n |-> 1024, logn |-> 10, q |-> Q, bound |-> 70265242, siglen |-> 
               sighdr |-> 90, refsighdr |-> 58]
 ParamsOf(n) == IF n = 512 THEN Falcon512 ELSE Falcon1024
 
-\* sigma, sigma_min as exact rationals are not needed; their f64 bit patterns appear in SamplerZ.tla
+\* IEEE-754 bit patterns (four 16-bit words, most significant first) of the floating-point parameters.
+\* For positive doubles the order of values is the lexicographic order of these words.
+SigmaMin512Bits  == <<16372, 29185, 48927, 31349>>   \* 1.2778336969128337
+SigmaMin1024Bits == <<16372, 50625, 39312, 51044>>   \* 1.298280334344292
+SigmaMaxBits     == <<16381, 8388, 39845, 58196>>    \* 1.8205
+Sigma512Bits     == <<16484, 46994, 24114, 53743>>   \* 165.7366171829776
+Sigma1024Bits    == <<16485, 3183, 11618, 57882>>    \* 168.38857144654395
+SigmaMinBitsOf(n) == IF n = 512 THEN SigmaMin512Bits ELSE SigmaMin1024Bits
+\* a <= b for positive finite doubles given as word quadruples
+LeqWords(a, b) == \/ a = b
+                  \/ \E i \in 1..4 : a[i] < b[i] /\ \A j \in 1..(i - 1) : a[j] = b[j]
+IsPositiveFinite(a) == a[1] < 32752   \* sign bit clear, exponent not all ones
 =====================================================================
